@@ -405,6 +405,45 @@ pub fn run(tier: Tier) -> i32 {
             }
         }
     }
+    // re-entrant calls: every expref-taking builtin with every call form in its expression reference, two levels
+    // deep (a builtin that keeps scratch state across the evaluation of its own argument is entered again here),
+    // and calls re-entered through projections and filters inside the reference
+    {
+        let outer = ["sort_by(@, &I)", "max_by(@, &I)", "min_by(@, &I)", "map(&I, @)", "sort_by(@, &I)[0]", "[*].I", "[?I]"];
+        let inner = [
+            "sort_by(@, &@)[0]", "max_by(@, &@)", "min_by(@, &@)", "map(&@, @)[0]", "sort(@)[0]", "max(@)", "min(@)", "sum(@)", "avg(@)", "length(@)", "reverse(@)[0]", "join('', map(&to_string(@), @))",
+            "to_string(@)", "to_array(@)[0]", "not_null(@[5], @[0])", "merge({a: @}, {b: @}).a[0]", "keys({a: @})[0]", "values({a: @[0]})[0]", "abs(@[0])", "contains(@, @[0])", "type(@)", "sort_by(@, &to_string(@))[0]", "[*].abs(@) | [0]", "[?@ > `0`] | [0]",
+        ];
+        let docs = [json!([[9, 4], [3, 1], [2, 5]]), json!([[["b", "a"], ["c"]], [["a"]]]), json!([]), json!([[1]]), json!([[3, "a"], [1]]), json!([[], [1]]), json!({"a": [[2, 1]]}), json!(null)];
+        let mut exprs: Vec<String> = Vec::new();
+        for o in outer {
+            for i in inner {
+                let one = o.replace('I', i);
+                exprs.push(one.clone());
+                // two levels: the inner call's own argument is a by-function again
+                for o2 in ["sort_by(@, &J)", "map(&J, @)", "max_by(@, &J)"] {
+                    exprs.push(o2.replace('J', &one));
+                }
+            }
+        }
+        let sr = par_sweep(exprs.chunks(32).map(|c| c.to_vec()).collect::<Vec<_>>(), |chunk: &Vec<String>, st| {
+            for c in chunk {
+                for d in &docs {
+                    st.states += 1;
+                    st.evaluations += 1;
+                    st.validated += 1;
+                    let rc = value_to_var(d);
+                    match guarded(|| jmespath::compile(c).map(|e| e.search(rc.clone()).is_ok())) {
+                        Ok(Ok(true)) => st.outcome("re-entrant call returned a value"),
+                        Ok(_) => st.outcome("re-entrant call returned an error"),
+                        Err(m) => st.violate(Violation { key: panic_key(&m), check: "re-entrant-calls".into(), case: json!({"kind": "search", "expression": c, "document": d}), expected: "Ok or Err".into(), actual: format!("panic: {}", m) }),
+                    }
+                }
+            }
+        });
+        st.count("re_entrant_call_expressions", sr.states);
+        st = st.merge(sr);
+    }
     // sort / sort_by over arrays of 21..=24 numbers drawn from four neighbouring values above 2^53 in both
     // representations: every array that deviates from the constant array in at most three positions
     {
